@@ -207,3 +207,184 @@ Proof.
         (eapply place_items_wf; [exact E|constructor|exact Hi]).
     + eapply append_wf; [exact H|constructor|exact Hi].
 Qed.
+
+(* ==== conservation of operations: counting occurrences of every uid ==== *)
+Definition icnt (u : Z) (its : list item) : nat := cnt u (items_ops its).
+
+Lemma icnt_nil u : icnt u [] = 0%nat.
+Proof. reflexivity. Qed.
+Lemma icnt_cons u it r : icnt u (it :: r) = (cnt u (item_ops it) + icnt u r)%nat.
+Proof. unfold icnt, items_ops. simpl. apply cnt_app. Qed.
+Lemma icnt_app u a b : icnt u (a ++ b) = (icnt u a + icnt u b)%nat.
+Proof. unfold icnt, items_ops. rewrite flat_map_app. apply cnt_app. Qed.
+Lemma icnt_concat_rev u bs : icnt u (concat (rev bs)) = icnt u (concat bs).
+Proof.
+  induction bs as [|b r IH]; simpl; [reflexivity|].
+  rewrite concat_app, !icnt_app, IH. simpl. rewrite app_nil_r. lia.
+Qed.
+Lemma concat_singletons {A} (l : list A) : concat (map (fun x => [x]) l) = l.
+Proof. induction l as [|x r IH]; simpl; [reflexivity|rewrite IH; reflexivity]. Qed.
+
+Lemma batches_concat c0 s its :
+  concat (match c0 : option pcache with
+          | Some _ => [its]
+          | None => match s with NEW => map (fun it => [it]) its | _ => group_into_moment_compatible its end
+          end) = its.
+Proof.
+  destruct c0; [simpl; apply app_nil_r|].
+  destruct s; try apply group_concat. apply concat_singletons.
+Qed.
+
+Lemma determine_cnt u st it p c1 ms1 : determine st it = (p, c1, ms1) -> ccnt u ms1 = ccnt u (i_ms st).
+Proof.
+  unfold determine. intros H. destruct (i_cache st) as [pc|].
+  - destruct (cache_append pc it) as [idx pc']. injection H as <- <- <-. reflexivity.
+  - destruct it as [o|m]; [destruct (i_s st)|]; injection H as <- <- <-; try reflexivity;
+      rewrite ccnt_insert_at; reflexivity.
+Qed.
+
+Lemma place_cnt u ms1 p it ms2 : place ms1 p it = inl ms2 -> ccnt u ms2 = (ccnt u ms1 + cnt u (item_ops it))%nat.
+Proof.
+  unfold place. intros H. destruct it as [o|m]; simpl.
+  - destruct (Nat.eqb p (length ms1)).
+    + injection H as <-. rewrite ccnt_app, ccnt_cons, ccnt_nil. lia.
+    + destruct (nth_error ms1 p) as [m|] eqn:En; [|discriminate].
+      destruct (with_operation m o) as [m'|] eqn:Ew; [|discriminate].
+      injection H as <-. apply with_operation_eq in Ew. subst m'.
+      pose proof (ccnt_replace_nth u p (m ++ [o]) m ms1 En) as Hc. rewrite cnt_app in Hc. lia.
+  - injection H as <-. rewrite ccnt_insert_at. lia.
+Qed.
+
+(* a combined statement: nothing is lost or invented even when the call fails half-way;
+   on success exactly the given items were added *)
+Definition cnt_step (u : Z) (a b : list moment) (added : nat) (e : option err) : Prop :=
+  (ccnt u a <= ccnt u b)%nat /\ (ccnt u b <= ccnt u a + added)%nat /\ (e = None -> ccnt u b = (ccnt u a + added)%nat).
+
+Lemma place_item_cnt u st it st' e : place_item st it = (st', e) -> cnt_step u (i_ms st) (i_ms st') (cnt u (item_ops it)) e.
+Proof.
+  unfold place_item, cnt_step. intros H.
+  destruct (determine st it) as [[p c1] ms1] eqn:Ed. pose proof (determine_cnt u _ _ _ _ _ Ed) as H1.
+  destruct (place ms1 p it) as [ms2|er] eqn:Ep.
+  - pose proof (place_cnt u _ _ _ _ Ep) as H2.
+    destruct (i_s st); injection H as <- <-; simpl; lia.
+  - injection H as <- <-. simpl. repeat split; try lia. discriminate.
+Qed.
+
+Lemma place_items_cnt u its : forall st st' e,
+  place_items st its = (st', e) -> cnt_step u (i_ms st) (i_ms st') (icnt u its) e.
+Proof.
+  unfold cnt_step. induction its as [|it r IH]; intros st st' e H; simpl in H.
+  - injection H as <- <-. rewrite icnt_nil. lia.
+  - rewrite icnt_cons. destruct (place_item st it) as [st1 [e1|]] eqn:E1.
+    + injection H as <- <-. pose proof (place_item_cnt u _ _ _ _ E1) as H1. unfold cnt_step in H1.
+      repeat split; try lia. discriminate.
+    + pose proof (place_item_cnt u _ _ _ _ E1) as H1. unfold cnt_step in H1.
+      specialize (IH _ _ _ H). destruct H1 as [? [? H1]]. specialize (H1 eq_refl). destruct IH as [? [? IH]].
+      repeat split; try lia. intros He. specialize (IH He). lia.
+Qed.
+
+Lemma do_batch_cnt u st b st' e : do_batch st b = (st', e) -> cnt_step u (i_ms st) (i_ms st') (icnt u b) e.
+Proof.
+  unfold do_batch. intros H.
+  match type of H with context [place_items ?a b] => destruct (place_items a b) as [st3 e3] eqn:E3 end.
+  pose proof (place_items_cnt u _ _ _ _ E3) as H3. unfold cnt_step in *.
+  assert (H0 : ccnt u (i_ms (if needs_blank st b
+              then mki (insert_at (i_k st) [] (i_ms st)) (i_cache st) (match i_s st with INLINE => S (i_k st) | _ => i_k st end) (i_s st) (i_maxp st)
+              else st)) = ccnt u (i_ms st)).
+  { destruct (needs_blank st b); [simpl; rewrite ccnt_insert_at; reflexivity|reflexivity]. }
+  simpl in H3. rewrite H0 in H3.
+  destruct e3 as [e3|]; injection H as <- <-; simpl; exact H3.
+Qed.
+
+Lemma do_batches_cnt u bs : forall st st' e,
+  do_batches st bs = (st', e) -> cnt_step u (i_ms st) (i_ms st') (icnt u (concat bs)) e.
+Proof.
+  unfold cnt_step. induction bs as [|b r IH]; intros st st' e H; simpl in H.
+  - injection H as <- <-. simpl. rewrite icnt_nil. lia.
+  - simpl. rewrite icnt_app. destruct (do_batch st b) as [st1 [e1|]] eqn:E1.
+    + injection H as <- <-. pose proof (do_batch_cnt u _ _ _ _ E1) as H1. unfold cnt_step in H1.
+      repeat split; try lia. discriminate.
+    + pose proof (do_batch_cnt u _ _ _ _ E1) as H1. unfold cnt_step in H1.
+      specialize (IH _ _ _ H). destruct H1 as [? [? H1]]. specialize (H1 eq_refl). destruct IH as [? [? IH]].
+      repeat split; try lia. intros He. specialize (IH He). lia.
+Qed.
+
+Lemma latest_item_cnt u k st it st' e : latest_item k st it = (st', e) -> cnt_step u (l_ms st) (l_ms st') (cnt u (item_ops it)) e.
+Proof.
+  unfold latest_item, cnt_step. intros H. destruct it as [o|m]; simpl.
+  - destruct (_ <? Z.of_nat k).
+    + injection H as <- <-. simpl. rewrite ccnt_insert_at. lia.
+    + destruct (_ <? _).
+      * destruct (nth_error (l_ms st) _) as [m|] eqn:En; [|injection H as <- <-; repeat split; try lia; discriminate].
+        destruct (with_operation m o) as [m'|] eqn:Ew; [|injection H as <- <-; repeat split; try lia; discriminate].
+        injection H as <- <-. simpl. apply with_operation_eq in Ew. subst m'.
+        pose proof (ccnt_replace_nth u _ (m ++ [o]) m _ En) as Hc. rewrite cnt_app in Hc. simpl in Hc. lia.
+      * injection H as <- <-. simpl. rewrite ccnt_app, ccnt_cons, ccnt_nil. lia.
+  - injection H as <- <-. simpl. rewrite ccnt_insert_at. lia.
+Qed.
+
+Lemma latest_items_cnt u k its : forall st st' e,
+  latest_items k st its = (st', e) -> cnt_step u (l_ms st) (l_ms st') (icnt u its) e.
+Proof.
+  unfold cnt_step. induction its as [|it r IH]; intros st st' e H; simpl in H.
+  - injection H as <- <-. rewrite icnt_nil. lia.
+  - rewrite icnt_cons. destruct (latest_item k st it) as [st1 [e1|]] eqn:E1.
+    + injection H as <- <-. pose proof (latest_item_cnt u _ _ _ _ _ E1) as H1. unfold cnt_step in H1.
+      repeat split; try lia. discriminate.
+    + pose proof (latest_item_cnt u _ _ _ _ _ E1) as H1. unfold cnt_step in H1.
+      specialize (IH _ _ _ H). destruct H1 as [? [? H1]]. specialize (H1 eq_refl). destruct IH as [? [? IH]].
+      repeat split; try lia. intros He. specialize (IH He). lia.
+Qed.
+
+Lemma latest_batches_cnt u k bs : forall st st' e,
+  latest_batches k st bs = (st', e) -> cnt_step u (l_ms st) (l_ms st') (icnt u (concat bs)) e.
+Proof.
+  unfold cnt_step. induction bs as [|b r IH]; intros st st' e H; simpl in H.
+  - injection H as <- <-. simpl. rewrite icnt_nil. lia.
+  - simpl. rewrite icnt_app. destruct (latest_items k st b) as [st1 [e1|]] eqn:E1.
+    + injection H as <- <-. pose proof (latest_items_cnt u _ _ _ _ _ E1) as H1. unfold cnt_step in H1.
+      repeat split; try lia. discriminate.
+    + pose proof (latest_items_cnt u _ _ _ _ _ E1) as H1. unfold cnt_step in H1.
+      specialize (IH _ _ _ H). destruct H1 as [? [? H1]]. specialize (H1 eq_refl). destruct IH as [? [? IH]].
+      repeat split; try lia. intros He. specialize (IH He). lia.
+Qed.
+
+Definition ok_of {A} (r : A + err) : option err := match r with inl _ => None | inr e => Some e end.
+
+Theorem insert_cnt u c i its s c' r :
+  insert c i its s = (c', r) -> cnt_step u (moms c) (moms c') (icnt u its) (ok_of r).
+Proof.
+  unfold insert. intros H.
+  set (k := clamp_index i (length (moms c))) in *.
+  match type of H with context [if ?b then None else cache c] => set (c0 := if b then None else cache c) in * end.
+  pose proof (batches_concat c0 s its) as Hb.
+  assert (Hx : forall a b e bs, concat bs = its -> cnt_step u a b (icnt u (concat bs)) e -> cnt_step u a b (icnt u its) e)
+    by (intros a b e bs <-; trivial).
+  destruct s.
+  all: try (match type of H with context [do_batches ?a ?b] => destruct (do_batches a b) as [st e] eqn:E end;
+            pose proof (do_batches_cnt u _ _ _ _ E) as Hc; (eapply Hx in Hc; [|exact Hb]);
+            destruct e as [e|]; injection H as <- <-; simpl; exact Hc).
+  match type of H with context [insert_latest ?a ?b ?d] => destruct (insert_latest a b d) as [st e] eqn:E end.
+  unfold insert_latest in E. pose proof (latest_batches_cnt u _ _ _ _ _ E) as Hc.
+  rewrite icnt_concat_rev in Hc. eapply Hx in Hc; [|exact Hb].
+  destruct e as [e|]; injection H as <- <-; [exact Hc|].
+  destruct (l_max st =? -1); simpl; exact Hc.
+Qed.
+
+Theorem construct_cnt u its s c' r :
+  construct its s = (c', r) -> cnt_step u [] (moms c') (icnt u its) (ok_of r).
+Proof.
+  unfold construct. intros H. destruct (all_moments its) as [ms|] eqn:Ea.
+  - injection H as <- <-. simpl. unfold cnt_step. rewrite ccnt_nil. simpl.
+    assert (Hm : ccnt u ms = icnt u its).
+    { clear -Ea. revert ms Ea. induction its as [|it r IH]; intros ms Ea; simpl in Ea.
+      - injection Ea as <-. reflexivity.
+      - destruct it as [o|m]; [discriminate|]. fold (all_moments r) in Ea.
+        destruct (all_moments r) as [l|]; [|discriminate]. injection Ea as <-.
+        rewrite ccnt_cons, icnt_cons, (IH l eq_refl). reflexivity. }
+    lia.
+  - destruct (is_earliest s).
+    + destruct (place_items _ its) as [st e] eqn:E. pose proof (place_items_cnt u _ _ _ _ E) as Hc.
+      destruct e as [e|]; injection H as <- <-; exact Hc.
+    + unfold append in H. apply (insert_cnt u) in H. exact H.
+Qed.
